@@ -267,6 +267,10 @@ def noise_series(draw):
     n = min(max(sum(s[1] for s in segs), 2), nmax)
     codes = draw(st.lists(st.integers(0, 17 * 16 - 1), min_size=n, max_size=n))
     atol = 10.0 ** draw(st.floats(-4, 2, allow_nan=False))
+    # tolerance given as a whole number of milli-units in an integer variable (e.g. 1500 mHz/s)
+    atol_int = draw(st.sampled_from([False, False, False, True]))
+    if atol_int:
+        atol = max(1, round(atol * 1000)) / 1000
     if xkind in ("float64", "float32"):
         xscale = 10.0 ** draw(st.floats(-3, 3, allow_nan=False))
         x0 = 0.0 if xkind == "float32" else draw(st.sampled_from([0.0, 0.0, -3.5, 1.0e3, 1.7e9])) * (
@@ -312,11 +316,12 @@ def noise_series(draw):
         level = last + (1 if up else -1) * jump * atol * xscale * 16
     while len(y) < n:  # the segments were shorter than 2 points
         y.append(y[-1])
-    scale = draw(st.sampled_from([1, 1, 1, 1000]))
+    scale = 1000 if atol_int else draw(st.sampled_from([1, 1, 1, 1000]))
     case = {
         "gen": "noise", "size": size, "xkind": xkind, "xunit": xunit, "x": x,
         "ydtype": "float64", "yunit": draw(st.sampled_from(["Hz", "m"])), "y": y,
-        "atol": atol * scale, "atol_scale": scale, "segments": [s[0] for s in segs][:len(seg_bounds)],
+        "atol": float(round(atol * scale)) if atol_int else atol * scale, "atol_scale": scale,
+        "atol_int": atol_int, "segments": [s[0] for s in segs][:len(seg_bounds)],
     }
     case = _decor(draw, case, n, True)
     # bias min_n_points towards the segment lengths (the interesting size boundary)
@@ -479,6 +484,8 @@ def build_atol(case):
         yu = "m" + yu
     elif int(case.get("atol_scale", 1)) != 1:
         raise HarnessError("unsupported atol scale")
+    if case.get("atol_int"):
+        return sc.scalar(int(case["atol"]), unit=sc.Unit(yu) / sc.Unit(case["xunit"]), dtype="int64")
     return sc.scalar(float(case["atol"]), unit=sc.Unit(yu) / sc.Unit(case["xunit"]))
 
 
@@ -678,6 +685,8 @@ def series_labels(case, n):
         labs.append("scalar-coord")
     if int(case.get("atol_scale", 1)) != 1:
         labs.append("atol-unit-scaled")
+    if case.get("atol_int"):
+        labs.append("atol-int64")
     if case["plateau_dim"] != "plateau":
         labs.append("custom-plateau-dim")
     if int(case["min_n_points"]) == n:
